@@ -141,6 +141,11 @@ function makeState() {
   return state;
 }
 
+// node 20 segfaults in SyntheticModuleEvaluationStepsCallback when the JS wrapper of a synthetic
+// module was garbage-collected between link() and evaluate(): keep the wrappers of the current
+// request strongly reachable (cleared at the start of every request)
+let keepAlive = [];
+
 function synthetic(exportsObj, context) {
   const names = Object.keys(exportsObj);
   const m = new vm.SyntheticModule(
@@ -150,6 +155,7 @@ function synthetic(exportsObj, context) {
     },
     { context },
   );
+  keepAlive.push(m);
   return m;
 }
 
@@ -444,6 +450,7 @@ for await (const line of rl) {
     continue;
   }
   const reply = { id: req.id, results: {} };
+  keepAlive = [];
   try {
     for (const m of req.modules) {
       if (req.mode === 'define') reply.results[m.name] = await evalDefine(m.code, req.env || {}, req.protocol || {});
